@@ -57,6 +57,7 @@ type funcResult struct {
 	Notes       []string
 	Inlined     []string
 	Assumed     []string
+	Called      []string
 	Assumptions []string
 	Secs        float64
 	Serves      []string
@@ -112,6 +113,10 @@ func verifyOne(eng *Engine, key string, opts solveOpts) *funcResult {
 		fr.Assumed = append(fr.Assumed, k)
 	}
 	sort.Strings(fr.Assumed)
+	for k := range vc.calledContracts {
+		fr.Called = append(fr.Called, k)
+	}
+	sort.Strings(fr.Called)
 	for k := range vc.assumptionsUsed {
 		fr.Assumptions = append(fr.Assumptions, k)
 	}
